@@ -185,6 +185,43 @@ func TestVerifHs13Masks(t *testing.T) {
 			jobs = append(jobs, hs13Job{v, m, opt})
 		}
 	}
+	// a datagram overtaken by its own retransmission (delivered 1.5 s / 3.5 s late), alone ...
+	for _, v := range variants {
+		for i := 0; i < 10; i++ {
+			jobs = append(jobs, hs13Job{v, hs13Single(i, "late:1500"), opt})
+			if i%2 == 0 || vIsThorough() {
+				jobs = append(jobs, hs13Job{v, hs13Single(i, "late:3500"), opt})
+			}
+		}
+	}
+	// ... and followed by a loss
+	for _, v := range variants[:2] {
+		for i := 0; i < 8; i++ {
+			for j := i + 1; j < 10; j++ {
+				m := hs13Single(j, "drop")
+				m[i] = "late:1500"
+				jobs = append(jobs, hs13Job{v, m, opt})
+			}
+		}
+	}
+	// every pair of faults (drop or long delay) over the first datagrams of the base variants
+	np := 10
+	if vIsThorough() {
+		np = 14
+	}
+	for _, v := range variants[:2] {
+		for i := 0; i < np; i++ {
+			for j := i + 1; j < np; j++ {
+				for _, a := range []string{"drop", "hold:3"} {
+					for _, b := range []string{"drop", "hold:3"} {
+						m := hs13Single(j, b)
+						m[i] = a
+						jobs = append(jobs, hs13Job{v, m, opt})
+					}
+				}
+			}
+		}
+	}
 	nr := 60
 	if vIsThorough() {
 		nr = 3000
@@ -194,9 +231,12 @@ func TestVerifHs13Masks(t *testing.T) {
 		l := 4 + rng.intn(16)
 		m := make([]string, l)
 		for j := range m {
-			if rng.chance(65) {
+			switch {
+			case rng.chance(65):
 				m[j] = "pass"
-			} else {
+			case rng.chance(15):
+				m[j] = []string{"late:500", "late:1500", "late:3500"}[rng.intn(3)]
+			default:
 				m[j] = hs13Acts[1+rng.intn(len(hs13Acts)-1)]
 			}
 		}
@@ -258,6 +298,24 @@ func TestVerifHs13Timed(t *testing.T) {
 			}
 		}
 	}
+	// a long silence towards one side while the bursts towards the other arrive reversed: the listening side sees,
+	// for a minute, nothing but stale flights whose older records come in behind the newer ones
+	for vi, v := range variants {
+		if !vIsThorough() && vi%2 == 1 {
+			continue
+		}
+		for _, from := range []int{2, 5, 7} {
+			for _, to := range []string{"client", "server"} {
+				other := "server"
+				if to == "server" {
+					other = "client"
+				}
+				jobs = append(jobs, hs13Job{v, nil, hs13Opt{
+					ReverseTo: other, SilenceFrom: from, SilenceUntil: 70 * time.Second, SilenceTo: to, Limit: 400 * time.Second,
+				}})
+			}
+		}
+	}
 	// fault masks under the non-default timer configurations
 	nr := 40
 	if vIsThorough() {
@@ -279,4 +337,75 @@ func TestVerifHs13Timed(t *testing.T) {
 		jobs = append(jobs, hs13Job{v, m, hs13Opt{Interval: tm.iv, NoBackoff: tm.nb, ReverseTo: rev, Limit: 600 * time.Second}})
 	}
 	hs13RunJobs(t, jobs, "hs13-timed")
+}
+
+// TestVerifHs13Cookie (C13 leg): the HelloRetryRequest exchange under faults: every small mask over
+// the first datagrams (ClientHello fragments, HelloRetryRequest, second ClientHello), the client
+// cut off for a long time (the server sees nothing but repeated first ClientHellos), short timer
+// intervals (repetitions inside and outside the InitialRetransmitInterval/2 window), reversed bursts.
+func TestVerifHs13Cookie(t *testing.T) {
+	rng := newVRand(vSeed() ^ 0x451313)
+	var jobs []hs13Job
+	names := []string{"v13", "v13-hrr", "v13-clientauth", "v13-mtu300", "v13-hrr-mtu300", "v13-mtu120", "v13-direct"}
+	opt := hs13Opt{Limit: 200 * time.Second}
+	n := 3
+	if vIsThorough() {
+		n = 5
+	}
+	for vi, name := range names {
+		v, _ := hs13Variant(name)
+		k := n
+		if vi >= 2 {
+			k = n - 1
+		}
+		total := 1
+		for i := 0; i < k; i++ {
+			total *= len(hs13Acts)
+		}
+		for code := 0; code < total; code++ {
+			m := make([]string, k)
+			c := code
+			for i := range m {
+				m[i] = hs13Acts[c%len(hs13Acts)]
+				c /= len(hs13Acts)
+			}
+			jobs = append(jobs, hs13Job{v, m, opt})
+		}
+		for _, iv := range []time.Duration{0, 10 * time.Millisecond, 250 * time.Millisecond} {
+			for _, nb := range []bool{false, true} {
+				sil := []time.Duration{3500 * time.Millisecond, 70 * time.Second}[rng.intn(2)]
+				if nb || iv == 10*time.Millisecond {
+					sil = 2500 * time.Millisecond
+					if iv == 10*time.Millisecond && nb {
+						sil = 300 * time.Millisecond
+					}
+				}
+				for _, rev := range []string{"", "server"} {
+					jobs = append(jobs, hs13Job{v, nil, hs13Opt{
+						Interval: iv, NoBackoff: nb, SilenceUntil: sil, SilenceTo: "client", ReverseTo: rev, Limit: sil + 300*time.Second,
+					}})
+				}
+			}
+		}
+		// the HelloRetryRequest passes, everything later towards the server is lost for a while
+		jobs = append(jobs, hs13Job{v, nil, hs13Opt{SilenceFrom: 3, SilenceUntil: 7500 * time.Millisecond, SilenceTo: "server", Limit: 300 * time.Second}})
+	}
+	nr := 30
+	if vIsThorough() {
+		nr = 1500
+	}
+	for i := 0; i < nr; i++ {
+		v, _ := hs13Variant(names[rng.intn(len(names))])
+		l := 2 + rng.intn(8)
+		m := make([]string, l)
+		for j := range m {
+			if rng.chance(45) {
+				m[j] = "pass"
+			} else {
+				m[j] = hs13Acts[1+rng.intn(len(hs13Acts)-1)]
+			}
+		}
+		jobs = append(jobs, hs13Job{v, m, opt})
+	}
+	hs13RunJobs(t, jobs, "hs13-cookie")
 }
